@@ -48,6 +48,87 @@ def run(rep: core.Report):
     _r14c(rep)
     _r14d(rep)
     _r14e(rep)
+    _r14f(rep)
+
+
+# ---------------------------------------------------------------------------
+# R14f sticky optional arguments
+# ---------------------------------------------------------------------------
+
+
+def _base_attr(t):
+    while isinstance(t, ast.Subscript):
+        t = t.value
+    if isinstance(t, ast.Attribute) and isinstance(t.value, ast.Name) and t.value.id == "self" and t.attr.startswith("_"):
+        return core.src(t)
+    return None
+
+
+def _stores(stmts):
+    out = set()
+    for s in stmts:
+        for n in ast.walk(s):
+            if isinstance(n, (ast.Assign, ast.AugAssign)):
+                for t in (n.targets if isinstance(n, ast.Assign) else [n.target]):
+                    for tt in (t.elts if isinstance(t, ast.Tuple) else [t]):
+                        b = _base_attr(tt)
+                        if b:
+                            out.add(b)
+    return out
+
+
+def _r14f(rep):
+    rep.rule("R14f", "a per-call optional argument (default None) never leaves private state behind: if one arm of 'if arg is None' stores self._x, the other arm (or an earlier unconditional statement) stores it too, so a later call without the argument does not see the earlier call's value", 5)
+    for rel in core.python_files("phonopy"):
+        if "/scripts/" in rel or "/cui/" in rel or "/interface/" in rel:
+            continue
+        for cls in [c for c in ast.walk(core.parse(rel)) if isinstance(c, ast.ClassDef)]:
+            for m in cls.body:
+                if not isinstance(m, ast.FunctionDef) or m.name == "__init__" or core._is_property_setter(m):
+                    continue
+                a = m.args
+                defaults = dict(zip([x.arg for x in a.args][::-1], a.defaults[::-1]))
+                opt = {k for k, d in defaults.items() if isinstance(d, ast.Constant) and d.value is None}
+                if not opt:
+                    continue
+                for node in ast.walk(m):
+                    if not isinstance(node, ast.If):
+                        continue
+                    t, pol = pycfg._norm_guard(node.test)
+                    pn = t[: -len(" is None")] if t.endswith(" is None") else t
+                    if pn not in opt:
+                        continue
+                    sa, sb = _stores(node.body), _stores(node.orelse)
+                    pre = set()
+                    cur = node
+                    while cur is not None and cur is not m:
+                        par = getattr(cur, "_parent", None)
+                        for field in ("body", "orelse", "finalbody"):
+                            lst = getattr(par, field, None)
+                            if isinstance(lst, list) and cur in lst:
+                                for prev in lst[: lst.index(cur)]:
+                                    if not isinstance(prev, (ast.If, ast.For, ast.While, ast.Try)):
+                                        pre |= _stores([prev])
+                        cur = par
+                    only = ((sa - sb) | (sb - sa)) - pre
+                    # the attribute must be read by this method or the class after the branch (otherwise it is a plain setter)
+                    for attr in sorted(sa | sb):
+                        read_later = any(isinstance(n, ast.Attribute) and core.src(n) == attr and isinstance(n.ctx, ast.Load) for mm in cls.body if isinstance(mm, ast.FunctionDef) and mm is not m for n in ast.walk(mm))
+                        if not read_later:
+                            continue
+                        ok = attr not in only
+                        rep.instance("R14f", rel, core.qualname_of(m), f"if {core.norm(core.src(node.test), 40)}: … stores {attr}", ok,
+                                     f"{attr} is stored only when '{pn}' is {'given' if attr in (sa if not pol else sb) or True else 'omitted'} and is read by other methods: a later call that omits '{pn}' keeps computing with the value left by the earlier call",
+                                     line=node.lineno)
+
+
+def _inside(node, kind):
+    cur = getattr(node, "_parent", None)
+    while cur is not None and not isinstance(cur, ast.FunctionDef):
+        if isinstance(cur, kind):
+            return True
+        cur = getattr(cur, "_parent", None)
+    return False
 
 
 # ---------------------------------------------------------------------------
@@ -390,6 +471,7 @@ def selftest():
     b("band structure: factor applied twice", "phonopy/phonon/band_structure.py", "np.sqrt(abs(eigs_path)) * np.sign(eigs_path) * self._factor", "np.sqrt(abs(eigs_path)) * np.sign(eigs_path) * self._factor * self._factor", "R14c", "")
     b("init_mesh: IterMesh gets the raw gamma-centre flag", "phonopy/api_phonopy.py", "                is_gamma_center=_is_gamma_center,\n                rotations=self._primitive_symmetry.pointgroup_operations,\n                factor=self._factor,\n            )\n        else:", "                is_gamma_center=is_gamma_center,\n                rotations=self._primitive_symmetry.pointgroup_operations,\n                factor=self._factor,\n            )\n        else:", "R14d", "is_gamma_center")
     b("qpoints writer recomputes from eigenvalues", "phonopy/phonon/qpoints.py", "    def write_hdf5(self, filename=\"qpoints.hdf5\"):\n        \"\"\"Write results in hdf5.\"\"\"\n", "    def write_hdf5(self, filename=\"qpoints.hdf5\"):\n        \"\"\"Write results in hdf5.\"\"\"\n        _tmp = self._natom_cache\n", "R14e", "write_hdf5")
+    b("group velocity: perturbation direction only stored when given", "phonopy/phonon/group_velocity.py", "        if perturbation is None:\n            # Give an random direction to break symmetry\n            self._directions[0] = np.array([1, 2, 3])\n        else:\n            self._directions[0] = np.dot(self._reciprocal_lattice, perturbation)\n        self._directions[0] /= np.linalg.norm(self._directions[0])", "        if perturbation is not None:\n            direction = np.dot(self._reciprocal_lattice, perturbation)\n            self._directions[0] = direction / np.linalg.norm(direction)", "R14f", "_directions")
     n("qpoints: allocate eigenvectors with empty_like", "phonopy/phonon/qpoints.py", "                eigenvectors = np.zeros_like(dynmat)\n", "                eigenvectors = np.empty_like(dynmat)\n")
     b("qpoints: share buffer under the wrong flag", "phonopy/phonon/qpoints.py", "            if self._with_dynamical_matrices:\n                # dynmat[i]", "            if not self._with_dynamical_matrices:\n                # dynmat[i]", "R14a", "dynmat")
     n("mesh: conversion written with np.abs and reordered", "phonopy/phonon/mesh.py", "np.sqrt(abs(eigenvalues)) * np.sign(eigenvalues),", "np.sign(eigenvalues) * np.sqrt(np.abs(eigenvalues)),", nth=0)
